@@ -274,15 +274,16 @@ def rst_table(data, schema=None):
     prow = [el if isinstance(el, list) else [el] for el in row]
     pdata.extend(pr for pr in xzip_longest(*prow, fillvalue=""))
 
-  # Find the columns sizes
-  sizes = [max(len("{0}".format(el)) for el in column)
-           for column in xzip(*pdata)]
-  sizes = [max(size, len(sch)) for size, sch in xzip(sizes, schema)]
-
-  # Creates the title and border rows
+  # Without a schema, the first row has the titles
   if schema is None:
     schema = pdata[0]
     pdata = pdata[1:]
+
+  # Find the columns sizes
+  sizes = [max(len("{0}".format(el)) for el in column)
+           for column in xzip(schema, *pdata)]
+
+  # Creates the title and border rows
   border = " ".join("=" * size for size in sizes)
   titles = " ".join("{1:^{0}}".format(*pair)
                     for pair in xzip(sizes, schema))
